@@ -170,10 +170,10 @@ def loadDict : Nat → F (List (V × V))
         else throw .typeError
 end
 
-/-- `xdis.marsh.loads(data)`: every nested `load` consumes a byte first, so `length + 2` units of
-    fuel are never exhausted on a stream the theorem is about -/
+/-- `xdis.marsh.loads(data)`: every nested `load` and every loop iteration consumes a byte first;
+    `2 * length + 3` units of fuel are provably enough on every stream a writer emits (C14_loads) -/
 def loads (data : Bytes) : Except FErr (V × Bytes) :=
-  match (load (data.length + 2)).run { inp := data, strs := [] } with
+  match (load (2 * data.length + 3)).run { inp := data, strs := [] } with
   | .ok (some v, s) => .ok (v, s.inp)
   | .ok (Option.none, _) => .error .nullValue
   | .error e => .error e
